@@ -46,6 +46,10 @@ CONTEXTS = [
     ("type_name", "CREATE TYPE", "creation_name"),
     ("schema_name", "CREATE SCHEMA", "creation_name"),
     ("after_dot", "CREATE TABLE s .", "dot_name"),
+    ("seq_after_cache", "CREATE SEQUENCE q CACHE", "kw"),
+    ("type_after_dot", "CREATE TABLE t ( a s .", "dot_name"),
+    ("ref_list_later", "CREATE TABLE t ( a int REFERENCES o ( x ,", "column_name"),
+    ("default_paren", "CREATE TABLE t ( a int DEFAULT (", "column_name"),
 ]
 CTX = env_int("VF_CTX", 0)
 CTX_NAME, PREFIX, ROLE = CONTEXTS[CTX]
@@ -101,6 +105,17 @@ BASE = lex_prefix(PREFIX)
 RULES = [rule_for(w.upper()) for w in VOCAB]
 
 
+TOKEN_TABLES = ["definition_statements", "common_statements", "columns_definition", "first_liners", "alter_tokens",
+                "after_columns_tokens", "sequence_reserved", "symbol_tokens", "symbol_tokens_no_check"]
+TABLES_SNAPSHOT = {n: dict(getattr(tok, n)) for n in TOKEN_TABLES}
+
+
+def tables_intact() -> bool:
+    """lexing must not write into the module-level keyword tables (they are shared by every
+    statement, run and parser object of the process)"""
+    return all(getattr(tok, n) == TABLES_SNAPSHOT[n] for n in TOKEN_TABLES)
+
+
 def lex_word(word, rule: str, flags: dict):
     """One call of the real token rule from the given flag state."""
     set_flags(flags)
@@ -133,6 +148,11 @@ def _case_ok(wi: int, cased: str) -> bool:
     ty, va, fl = lex_word(cased, RULES[wi], BASE)
     rty, rva, rfl = REF[wi]
     if ty != rty or fl != rfl:
+        return False
+    if not tables_intact():
+        for n in TOKEN_TABLES:  # restore for the next path, then fail this one
+            getattr(tok, n).clear()
+            getattr(tok, n).update(TABLES_SNAPSHOT[n])
         return False
     if rty in ("ID", "LT", "RT"):
         return va == cased  # names and type words keep the case they were written in
@@ -194,7 +214,7 @@ EXPECT_KW = {
     "after_not": ["NULL", "ENFORCED", "DEFERRABLE"],
     "after_default": ["NULL"],
     "after_columns": _AFTER_COLS, "after_clause": _AFTER_COLS,
-    "seq_options": _SEQ, "seq_options2": _SEQ,
+    "seq_options": _SEQ, "seq_options2": _SEQ, "seq_after_cache": [w for w in _SEQ if w != "BY"],
     "alter_body": ["ADD", "DROP", "COLUMN", "RENAME", "MODIFY", "DEFAULT", "IF", "EXISTS"],
     "alter_add": ["CONSTRAINT", "PRIMARY", "KEY", "FOREIGN", "UNIQUE", "CHECK", "DEFAULT", "COLUMN"],
 }
